@@ -1,6 +1,8 @@
 """C03 — fetch, push and pull copy history completely and faithfully."""
 import json
 import os
+import shutil
+import tempfile
 
 from vf import env, tlc, table, core, world
 from harness import fetch_common as fc
@@ -28,20 +30,28 @@ META = dict(
                "texts (no gpg).",
 )
 
-# (label, source format, target format, which side is reached through bzr:// (None / "src" / "tgt"))
+# (label, source format, target format, which side is reached through bzr:// (None / "src" / "tgt"), on disk?)
+# Repositories live on MemoryTransports, where every cross-format fetch is a STREAMING fetch (StreamSource / StreamSink,
+# Inter1and2Helper for the root texts); two LOCAL DISK repositories with different serialisers are copied by
+# InterDifferingSerializer instead (its is_compatible wants file:/// on both sides) - the "disk" configurations.
 CONFIGS_QUICK = [
-    ("2a->2a", "2a", "2a", None),
-    ("pack-0.92->2a", "pack-0.92", "2a", None),
-    ("1.9-rich-root->2a", "1.9-rich-root", "2a", None),
-    ("pack-0.92->pack-0.92", "pack-0.92", "pack-0.92", None),
-    ("bzr://2a->2a", "2a", "2a", "src"),
-    ("2a->bzr://2a", "2a", "2a", "tgt"),
+    ("2a->2a", "2a", "2a", None, False),
+    ("pack-0.92->2a", "pack-0.92", "2a", None, False),
+    ("1.9-rich-root->2a", "1.9-rich-root", "2a", None, False),
+    ("pack-0.92->pack-0.92", "pack-0.92", "pack-0.92", None, False),
+    ("bzr://2a->2a", "2a", "2a", "src", False),
+    ("2a->bzr://2a", "2a", "2a", "tgt", False),
+    ("disk 1.9->2a", "1.9", "2a", None, True),
 ]
 CONFIGS_THOROUGH = CONFIGS_QUICK + [
-    ("knit->pack-0.92", "knit", "pack-0.92", None),
-    ("bzr://pack-0.92->2a", "pack-0.92", "2a", "src"),
-    ("pack-0.92->bzr://pack-0.92", "pack-0.92", "pack-0.92", "tgt"),
+    ("knit->pack-0.92", "knit", "pack-0.92", None, False),
+    ("bzr://pack-0.92->2a", "pack-0.92", "2a", "src", False),
+    ("pack-0.92->bzr://pack-0.92", "pack-0.92", "pack-0.92", "tgt", False),
+    ("disk 1.9->1.9-rich-root", "1.9", "1.9-rich-root", None, True),
+    ("disk pack-0.92->2a", "pack-0.92", "2a", None, True),
 ]
+# the 100+ revision linear history (thorough): streaming non-rich-root -> rich-root, and InterDifferingSerializer batches
+CONFIGS_LONG = [CONFIGS_QUICK[1], CONFIGS_THOROUGH[-1]]
 OPS = ("fetch", "push", "pull")
 WITNESSES = ("WitnessPartialOverlap", "WitnessGhostAncestor", "WitnessCarriedText")
 
@@ -60,15 +70,20 @@ def mc_cfg(maxrev, nghosts, allpats, maxpar=2, inv=("TargetClosed", "KindsComple
 class Job:
     """One history in one configuration: the source is built once, every case gets a fresh target."""
 
-    def __init__(self, hist, config):
-        from breezy import transport as T
+    def __init__(self, hist, config, workdir):
+        from breezy import transport as T, urlutils
         from dromedary import memory
         self.h, self.config = hist, config
-        self.label, self.sfmt, self.tfmt, self.remote = config
+        self.label, self.sfmt, self.tfmt, self.remote, self.disk = config
         self.P, self.n = [list(ps) for ps in hist["P"]], len(hist["P"])
-        self.srv = memory.MemoryServer()
-        self.srv.start_server()
-        self.url = self.srv.get_url()
+        self.srv = self.dir = None
+        if self.disk:
+            self.dir = tempfile.mkdtemp(prefix="c03-", dir=workdir)
+            self.url = urlutils.local_path_to_url(self.dir) + "/"
+        else:
+            self.srv = memory.MemoryServer()
+            self.srv.start_server()
+            self.url = self.srv.get_url()
         self.root = T.get_transport(self.url)
         self.count = 0
         self.rt = None
@@ -79,7 +94,10 @@ class Job:
             self.rt, self.medium = world.inproc_remote_transport(self.root)
 
     def close(self):
-        self.srv.stop_server()
+        if self.srv is not None:
+            self.srv.stop_server()
+        if self.dir is not None:
+            shutil.rmtree(self.dir, ignore_errors=True)
 
     def open_branch(self, name, side):
         from breezy import branch as B
@@ -191,7 +209,7 @@ def replay_jobs(sub, chunk):
     ui.ui_factory.suppressed_warnings.add("cross_format_fetch")
     rows = sub.cov.setdefault("_collect", [])
     for hist, config, cases in chunk:
-        job = Job(hist, config)
+        job = Job(hist, config, sub.workdir)
         try:
             P, so = job.observe_source()
             if P != job.P:
@@ -289,12 +307,12 @@ def run(ctx):
     for w in WITNESSES:      # anti-vacuity: states TLC must reach
         tlc.check(ctx, "FetchMC", cfg_text=mc_cfg(3, 1, 3, inv=(w,), props=()), expect_violation=w, label="witness " + w, workers=4)
     # ---- E2: cases exported by TLC for a seeded sample of the universe
-    maxrev, nhist, per_hist = (4, 40, 5) if ctx.quick else (5, 250, 6)
+    maxrev, nhist, per_hist, long = (4, 34, 5, 0) if ctx.quick else (5, 250, 6, 105)
     total = fc.count_universe(maxrev, 2, 1)
     idx = sorted(ctx.rng.sample(range(1, total + 1), nhist))
     fidx = os.path.join(ctx.workdir, "idx.json")
     with open(fidx, "w") as f:
-        json.dump(idx, f)
+        json.dump({"idx": idx, "long": long}, f)
     data, _ = tlc.json_cases(ctx, "FetchGen", cfg_text=gen_cfg(maxrev, 1), env={"VF_IDX": fidx}, label="FetchGen export",
                              workers=4, timeout=3000)
     if data["n"] != total:
@@ -306,6 +324,13 @@ def run(ctx):
     for hi, hist in enumerate(hists):
         for k, config in enumerate(configs):
             jobs.append((hist, config, pick_cases(hist, ctx.rng, per_hist, hi + k)))
+    if long:
+        # one linear history of more than 100 revisions (code that reads or writes revisions in batches of 100)
+        if len(data["long"]) != 1 or len(data["long"][0]["P"]) != long:
+            ctx.machinery("TLC did not export the %d-revision history" % long)
+        for config in CONFIGS_LONG:
+            jobs.append((data["long"][0], config, [(c["S"], c["rev"], "fetch" if j % 2 == 0 else "pull", c["exp"])
+                                                   for j, c in enumerate(sorted(data["long"][0]["cases"], key=lambda c: (c["S"], c["rev"])))]))
     core.fork_map(ctx, replay_jobs, jobs)
     rows = ctx.collected
     if not rows:
@@ -313,7 +338,7 @@ def run(ctx):
     ctx.rule("histories = seeded sample of (graph <= %d revisions, <= 2 ordered parents, ghost allowed anywhere) x 4 edit "
              "patterns, enumerated by TLC; per history and configuration up to %d (closed target content, revision) cases "
              "with the operation rotating over fetch / push / pull / sprout; non-trivial = the fetched revision is not "
-             "yet in the target" % (maxrev, per_hist))
+             "yet in the target%s" % (maxrev, per_hist, "; plus one linear history of %d revisions (5 cases x 2 configurations)" % long if long else ""))
     ctx.cov["configurations"] = [c[0] for c in configs]
     ctx.cov["histories"] = nhist
     judge(ctx, rows)
@@ -324,7 +349,8 @@ def judge(ctx, rows, selftest=True):
     slim = [{"c": r["c"], "impl": {k: v for k, v in r["impl"].items() if k not in ("detail", "dir1", "dir2")},
              "spec": r["spec"]} for r in rows]
     by_id = {id(s): r for s, r in zip(slim, rows)}
-    ctx.sample({k: rows[len(rows) // 2][k] for k in ("c", "meta")})
+    small = [r for r in rows if len(r["c"]["P"]) <= 8] or rows
+    ctx.sample({k: small[len(small) // 2][k] for k in ("c", "meta")})
     # binding self-test: corrupted copies of a good observation must be rejected by the same TLC run, each by its law
     probes, skipped = [], None
     if selftest:
@@ -373,7 +399,7 @@ def replay(ctx, rep):
     env.init()
     row = rep["replay"]
     m, n = row["meta"], len(row["c"]["P"])
-    config = next(c for c in CONFIGS_THOROUGH if c[0] == m["config"])
+    config = next(c for c in CONFIGS_THOROUGH if c[0] == m["config"])      # (CONFIGS_LONG are among them)
     hist = {"P": row["c"]["P"], "T": m["trees"], "signed": [k for k in range(1, n + 1) if k % 2], "idx": m["hist"],
             "pat": m["pat"], "texts": row["spec"]["stexts"], "fpk": row["spec"]["sfp"]}
     exp = {k: row["spec"][k] for k in ("revs", "invs", "texts", "sigs")}
